@@ -6,6 +6,8 @@ spellings. Acceptance is observed through a larger untyped fallback rule (the ma
 encoding size reveal which rule was taken), rejection itself (error, no output) is observed alone
 for every value within 4 of a boundary and a seeded sample of the others.
 """
+import zlib
+
 import lib
 
 SPEC = {
@@ -386,7 +388,7 @@ def shard(ctx):
         else:
             values = sorted(set(v for b in (0, 1 << n, -(1 << (n - 1)), 1 << (n - 1), -(1 << n)) for v in range(b - 4, b + 5)
                                 if lo <= v <= hi))
-        rng = ctx.rng(hash((kind, n, how)) & 0xffff, "sample")
+        rng = ctx.rng(zlib.crc32(repr((kind, n, how)).encode()) & 0xffff, "sample")      # (str hashes differ per process)
         if kind != "d":
             for i in range(0, len(values), 400):
                 run_typed(ctx, worker, kind, n, values[i:i + 400], how)
